@@ -247,9 +247,10 @@ CHECKS["C05"] = {
           stubs=STUB_SER + STUB_FMT, witness="search"),
     ],
     "assumptions": [
-        "server half only: the client iterator (MethodCall::more / next / recv) reads through "
-        "BufReader<Box<dyn Read>> and is outside what CBMC reaches (DESIGN P7, P13)",
-        "writer never fails",
+        "c05_gate (Kani) is the server half; the client half (MethodCall::more / next / call / recv) reads through "
+        "BufReader<Box<dyn Read>>, which CBMC does not reach (DESIGN P7, P13): it is decided on the rustc MIR by the "
+        "c05_next / c05_more / c05_call / c07_recv instances instead",
+        "writer never fails (c05_gate)",
     ],
 }
 
@@ -702,6 +703,39 @@ CHECKS["C06"] = {
         "things handle() does with a parsed request",
     ],
 }
+
+# C05, client half: the more-iterator on the rustc MIR (smt/c05_client.py) + the recv instance of C07
+C05_CLIENT_MODELS = [
+    "MIR symbolic execution (smt/mirsym.py, smt/c05_client.py); MethodCall::send -> recorded with its three flag arguments, Ok or Err "
+    "(free); MethodCall::recv -> recorded, returns a marker value and leaves a free boolean in the call's continues flag (their "
+    "bodies are decided by c07_send / c07_recv on the same MIR dump); Try::branch / FromResidual -> the `?` contract",
+]
+_h_c05_client = [
+    H("c05_next", engine="smt", script="c05_client.py", timeout=(600, 900),
+      functions=["<varlink::MethodCall as Iterator>::next (rustc MIR)"],
+      symbolic="the call's continues flag; what recv leaves in it", bounds="all returning paths of the function (2)",
+      stubs=C05_CLIENT_MODELS),
+    H("c05_more", engine="smt", script="c05_client.py", timeout=(600, 900),
+      functions=["varlink::MethodCall::more (rustc MIR)"],
+      symbolic="the call's continues flag on entry; send Ok or Err", bounds="all returning paths of the function (2)",
+      stubs=C05_CLIENT_MODELS),
+    H("c05_call", engine="smt", script="c05_client.py", timeout=(600, 900),
+      functions=["varlink::MethodCall::call (rustc MIR)"],
+      symbolic="send Ok or Err", bounds="all returning paths of the function (2)", stubs=C05_CLIENT_MODELS),
+    [h for h in CHECKS["C07"]["harnesses"] if h["name"] == "c07_recv"][0],
+]
+CHECKS["C05"]["harnesses"] = CHECKS["C05"]["harnesses"] + _h_c05_client
+CHECKS["C05"]["assumptions"] = CHECKS["C05"]["assumptions"] + [
+    "client half, by composition over single steps from an arbitrary state (one thread): next() yields exactly one reply read while "
+    "the call's continues flag is set and reads nothing and ends once it is clear (c05_next); more() arms the flag, sends exactly one "
+    "request carrying `more` only and fails iff the send fails (c05_more); call() sends without flags and returns the one reply it "
+    "reads, reading only after a successful send (c05_call); recv() sets the flag exactly when the reply carries continues=true and "
+    "otherwise hands both stream halves back to the connection, Ok exactly when the reply has no error (c07_recv). Together: every "
+    "continues reply is yielded in order, then the final reply, then the iteration ends with the connection free. The order of "
+    "items is the order of reads on one BufReader (not modelled further); a violation is confirmed natively on real "
+    "Connection / MethodCall objects over scripted reply streams of 0..3 continues replies x {result, error, result with "
+    "continues:false}, each followed by a call() on the same connection",
+]
 
 # C01 / C02 / C06 at message granularity on the MIR of handle(): the stream is a nondeterministic stub (symbolic framing)
 C01_MIR_MODELS = [
